@@ -56,7 +56,7 @@ def run(ids):
         open(p, "w").write(s.replace(old, new, 1))
         env = dict(os.environ, VERIF_REPO=copy, VERIF_BUILD=os.path.join(ROOT, mid, "build"), VERIF_OUT=os.path.join(ROOT, mid, "out"), GOFLAGS="-mod=mod", GOPROXY="off")
         # the mutant must still pass the pinned tests
-        t = subprocess.run("cd %s && go test -vet=off -count=1 ./src/... 2>&1 | grep -E '^(FAIL|ok)' | grep -v 'src/compiler'" % copy, shell=True, env=env, capture_output=True, text=True)
+        t = subprocess.run("cd %s && go test -vet=off -count=1 ./src/... 2>&1 | grep -E '^(FAIL|ok)[[:space:]]+[^[:space:]]' | grep -v 'src/compiler'" % copy, shell=True, env=env, capture_output=True, text=True)
         tests_ok = "FAIL" not in t.stdout
         res = {"property": prop, "pinned_tests_pass": tests_ok, "checks": {}}
         for c in checks:
